@@ -846,7 +846,7 @@ pub fn build(quick: bool) -> Check {
     Check {
         id: "C03",
         level: "model_checking",
-        rule: format!("every complete program of <= {} writer calls through the typestate automaton (start(0|1|2 cols), write_col(v|NULL), end_row, write_row(0|k|k+1), finish, finish_one, finish_error, complete_one, completed, error, no_more_results, drop), in text and binary mode, each followed by a PING sentinel ({} programs); wide variants (k=3, k=300); all ordered pairs of short programs; all ordered triples of programs of <= 2 (thorough: 3) calls in all 8 combinations of text and binary mode on one connection, and of <= 3 calls with the combination rotating; library replies and silent commands; replies of 245..262, 300, 520, 1000 rows, 300 columns, and chains of 70..300 resultsets / completions. Environment: every program of <= 4 (thorough: 6) calls runs under each of six client/transport variants (other handshake layouts and capability sets, 1- and 7-byte transport writes, 3-byte reads, lock-step client); longer programs and pairs rotate through them. Oracle: reference interpreter -> predicted response units vs strict decode; shape-contradicting programs must be refused at or before the call that closes the malformed row and nothing malformed may reach the transport. Non-trivial = program of >= 3 calls.", depth, n_main),
+        rule: format!("every complete program of <= {} writer calls through the typestate automaton (start(0|1|2 cols), write_col(v|NULL), end_row, write_row(0|k|k+1), finish, finish_one, finish_error, complete_one, completed, error, no_more_results, drop), in text and binary mode, each followed by a PING sentinel ({} programs); wide variants (k=3, k=300); all ordered pairs of short programs; 129..513 distinct resultset shapes on one connection each started twice; a large reply, every number <= 600 (1300) of quiet exchanges, then a multi-packet reply; all ordered triples of programs of <= 2 (thorough: 3) calls in all 8 combinations of text and binary mode on one connection, and of <= 3 calls with the combination rotating; library replies and silent commands; replies of 245..262, 300, 520, 1000 rows, 300 columns, and chains of 70..300 resultsets / completions. Environment: every program of <= 4 (thorough: 6) calls runs under each of six client/transport variants (other handshake layouts and capability sets, 1- and 7-byte transport writes, 3-byte reads, lock-step client); longer programs and pairs rotate through them. Oracle: reference interpreter -> predicted response units vs strict decode; shape-contradicting programs must be refused at or before the call that closes the malformed row and nothing malformed may reach the transport. Non-trivial = program of >= 3 calls.", depth, n_main),
         assumptions: vec![
             "a fresh QueryResultWriter that is dropped or told no_more_results without starting anything is outside the property and not generated".into(),
             "a malformed row closed by drop has no call result: refusal is then 'run_on returns the deferred error'".into(),
@@ -854,7 +854,7 @@ pub fn build(quick: bool) -> Check {
         bounds: json!({"max_calls": depth, "programs": n_main}),
         exhaustive: true,
         caps_hit: vec![],
-        families: vec![Box::new(main), Box::new(wide), Box::new(pairs), Box::new(triples), Box::new(triples_rot), Box::new(super::soak::QuietRuns { max_n: if quick { 600 } else { 1300 }, ends_in_completion: false }), Box::new(BuiltinFamily), Box::new(long), Box::new(long_wide)],
+        families: vec![Box::new(main), Box::new(wide), Box::new(pairs), Box::new(triples), Box::new(triples_rot), Box::new(super::soak::QuietRuns { max_n: if quick { 600 } else { 1300 }, ends_in_completion: false }), Box::new(super::c09::ManyShapes { ns: if quick { vec![129, 257, 513] } else { vec![129, 257, 513, 1025, 4200] } }), Box::new(BuiltinFamily), Box::new(long), Box::new(long_wide)],
         required: vec!["runs_under_another_environment", "shape_contradicting_programs", "chained_responses", "programs_ending_in_drop", "malformed_row_closed_by_drop", "pairs", "triples", "builtin", "quiet_runs"],
     }
 }
